@@ -860,6 +860,7 @@ static void store_text(std::optional<vrt::Box<ST::string>> &cur, const S &t, uns
 static void body()
 {
     ambient::enable(3);
+    vrt::box_shifts() = true;
     vrt::require("format.calls", 10000);
     vrt::require("format.padded", 1000);
     vrt::require("format.rendering_64_or_longer", 500);
